@@ -3,7 +3,8 @@ import random
 import subprocess
 from collections import Counter
 
-from orchestrate.common import run_check, ROOT
+import orchestrate.common as oc
+from orchestrate.common import run_check, ROOT, REPO
 
 # ---------------------------------------------------------------------------------------------
 # Independent reference for the SPECIFICATION (not used by any proof): Austin Appleby's published
@@ -125,9 +126,13 @@ def post(lines, verdicts):
     # (a) SPEC tie: Coq hash3_x64_128 (extracted) vs the reference
     sl = _spec_lines(int(os.environ.get("VERIF_SEED", "1")))
     drv = os.path.join(ROOT, "ocaml", "c03", "driver")
-    p = subprocess.run([drv], input="\n".join(sl) + "\n", stdout=subprocess.PIPE, stderr=subprocess.PIPE,
-                       text=True, timeout=1200)
-    sv = p.stdout.splitlines()
+    try:
+        p = subprocess.run([drv], input="\n".join(sl) + "\n", stdout=subprocess.PIPE, stderr=subprocess.PIPE,
+                           text=True, timeout=1200)
+        sv = p.stdout.splitlines()
+    except subprocess.TimeoutExpired:
+        sv = []
+        probs.append(("diff", "S -", "error spec tie: driver timeout"))
     post.spec_cases = len(sl)
     post.spec_k2 = sum(1 for l in sl if _k2_signed(_unhex(l.split()[1])))
     if len(sv) != len(sl):
@@ -147,8 +152,6 @@ def post(lines, verdicts):
             if f[1] == "c":
                 cen["cdc_hash"] += 1
                 continue
-            if len(f[2]) > 2400:
-                continue
             if f[0] == "H":
                 data = _unhex(f[2])
             else:
@@ -162,6 +165,11 @@ def post(lines, verdicts):
                 probs.append(("diff", ln[:300], "diff reference=" + _hexz(ref_token(data))))
         elif f[0] == "K":
             o = obs.split(" ")
+            if len(o) != 5:
+                probs.append(("diff", ln[:300], "diff malformed K observation"))
+                continue
+            if o[3] != "na":
+                cen["k_typed_path_compared"] += 1
             wire = [] if f[3] == "-" else [int(x, 16) for x in f[3].split(",")]
             if len(wire) >= 2 and wire != sorted(wire) and o[2].startswith("some:"):
                 cen["permuted_key_ok"] += 1
@@ -169,6 +177,8 @@ def post(lines, verdicts):
                 cen["k_malformed"] += 1
             if "err:toolong" in obs:
                 cen["too_long"] += 1
+                if len(f[4]) < 131000 * 2 and not (f[2] == "2" and f[3] == "1,0"):
+                    cen["too_long_random"] += 1
             if f[1] == "c":
                 cen["k_cdc"] += 1
             if len(wire) >= 5:
@@ -177,7 +187,7 @@ def post(lines, verdicts):
             if "err:toolong" in obs:
                 cen["too_long"] += 1
         elif f[0] == "E":
-            if obs.startswith("error"):
+            if obs.startswith("error cluster-start") or obs.startswith("error session"):
                 cen["e_not_run"] += 1
             if obs.startswith("c "):
                 cen["e_cdc"] += 1
@@ -204,8 +214,8 @@ def post(lines, verdicts):
             if kinds[k] < fl:
                 probs.append(("diff", k, f"diff coverage floor: only {kinds[k]} {k} cases (< {fl})"))
         cfl = {"k2_signed_tail": 3000, "multi_chunk": 5000, "cdc_hash": 1500, "permuted_key_ok": 3000,
-               "k_malformed": 300, "too_long": 4, "k_cdc": 1000, "k_5plus_components": 1000,
-               "p_cdc": 100, "p_unknown": 100, "e_cdc": 100, "e_mode_s": 500, "e_mode_x": 30, "e_mode_u": 30,
+               "k_malformed": 300, "too_long": 10, "k_typed_path_compared": 8000, "k_cdc": 1000, "k_5plus_components": 1000,
+               "p_cdc": 100, "p_unknown": 100, "e_cdc": 60, "e_mode_s": 500, "e_mode_x": 30, "e_mode_u": 30,
                "y_composite_ok": 800, "y_ser_err": 20, "z_cdc": 100}
         for k, fl in cfl.items():
             if cen[k] < fl:
@@ -217,55 +227,72 @@ def post(lines, verdicts):
     return probs
 
 
-NOCHK_TARGET = os.path.join(ROOT, "build", "cargo-c03-nochk")
-
-
 def _release_mode_tie(lines):
     """Second build of the SAME runner with overflow checks off (release arithmetic: u16 wraps):
     the pk-index cases outside the quantifier (where the checked build panics) and a sample of
-    ordinary K cases are re-run as kind R and compared with the model's checks=false branch."""
+    ordinary K cases are re-run as kind R and compared with the model's checks=false branch.
+    Built from the same harness directory as the main runner (so a VERIF_REPO run sees the same
+    tree) into `<main target dir>-c03-nochk`, where the checked runner also looks when a replay
+    hands it an R case."""
     post.r_cases = post.r_wrapped = 0
-    ks = [ln for ln in lines if ln.startswith("K ")]
-    if not ks:
-        return []
-    mal, ordinary = [], []
-    for ln in ks:
+    mal, ordinary, debug_panic = [], [], set()
+    for ln in lines:
+        if not ln.startswith("K "):
+            continue
         case, _, obs = ln.partition(" | ")
         if len(case) > 4000:
             continue
-        (mal if (obs.startswith("panic") or obs.startswith("err:")) else ordinary).append(case)
-    sel = mal[:6000] + ordinary[:1500]
-    panicked = {"R" + c[1:] for c in mal if True}
+        if obs.startswith("panic") or obs.startswith("err:"):
+            if len(mal) < 6000:
+                mal.append(case)
+                if obs.startswith("panic"):
+                    debug_panic.add("R" + case[1:])
+        elif len(ordinary) < 1500:
+            ordinary.append(case)
+    sel = mal + ordinary
     if not sel:
         return []
+    hdir, _ = oc.harness_dir()
+    target = oc.CARGO_TARGET + "-c03-nochk"
     env = dict(os.environ)
-    env.update({"CARGO_PROFILE_DEV_OVERFLOW_CHECKS": "false", "CARGO_TARGET_DIR": NOCHK_TARGET, "CARGO_NET_OFFLINE": "true"})
-    b = subprocess.run("cargo build --offline --bin c03", shell=True, cwd=os.path.join(ROOT, "harness"), env=env,
-                       stdout=subprocess.PIPE, stderr=subprocess.STDOUT, text=True, timeout=2400)
-    if b.returncode != 0:
-        return [("diff", "R", "error build without overflow checks failed: " + b.stdout[-300:].replace("\n", " "))]
+    env.pop("RUSTFLAGS", None)
+    env.update({"CARGO_PROFILE_DEV_OVERFLOW_CHECKS": "false", "CARGO_TARGET_DIR": target, "CARGO_NET_OFFLINE": "true"})
+    tag = f"C03.{os.getpid()}.nochk"
     work = os.path.join(ROOT, "work")
-    rin, rout = os.path.join(work, "C03.nochk.in"), os.path.join(work, "C03.nochk.cases")
-    open(rin, "w").write("\n".join("R" + c[1:] for c in sel) + "\n")
-    r = subprocess.run([os.path.join(NOCHK_TARGET, "debug", "c03"), "--replay", rin, "--out", rout],
-                       stdout=subprocess.PIPE, stderr=subprocess.STDOUT, text=True, timeout=1200)
-    if r.returncode != 0:
-        return [("diff", "R", "error runner without overflow checks failed: " + r.stdout[-300:].replace("\n", " "))]
-    rl = open(rout, errors="replace").read().splitlines()
-    d = subprocess.run([os.path.join(ROOT, "ocaml", "c03", "driver")], input="\n".join(rl) + "\n",
-                       stdout=subprocess.PIPE, stderr=subprocess.PIPE, text=True, timeout=1200)
-    rv = d.stdout.splitlines()
+    rin, rout = os.path.join(work, tag + ".in"), os.path.join(work, tag + ".cases")
+    try:
+        b = subprocess.run("cargo build --offline --bin c03", shell=True, cwd=hdir, env=env,
+                           stdout=subprocess.PIPE, stderr=subprocess.STDOUT, text=True, timeout=2400)
+        if b.returncode != 0:
+            return [("diff", "R", "error build without overflow checks failed: " + b.stdout[-300:].replace("\n", " "))]
+        open(rin, "w").write("\n".join("R" + c[1:] for c in sel) + "\n")
+        r = subprocess.run([os.path.join(target, "debug", "c03"), "--replay", rin, "--out", rout],
+                           stdout=subprocess.PIPE, stderr=subprocess.STDOUT, text=True, timeout=1200)
+        if r.returncode != 0:
+            return [("diff", "R", "error runner without overflow checks failed: " + r.stdout[-300:].replace("\n", " "))]
+        rl = open(rout, errors="replace").read().splitlines()
+        d = subprocess.run([os.path.join(ROOT, "ocaml", "c03", "driver")], input="\n".join(rl) + "\n",
+                           stdout=subprocess.PIPE, stderr=subprocess.PIPE, text=True, timeout=1200)
+        rv = d.stdout.splitlines()
+    except subprocess.TimeoutExpired as ex:
+        return [("diff", "R", f"error release-mode tie: timeout in {str(ex.cmd)[:80]}")]
+    finally:
+        for fn in (rin, rout):
+            try:
+                os.remove(fn)
+            except OSError:
+                pass
     out = []
     if len(rv) != len(rl) or len(rl) != len(sel):
         out.append(("diff", "R", f"error release-mode tie: {len(sel)} cases, {len(rl)} outputs, {len(rv)} verdicts"))
-    debug_out = {("R" + ln.partition(" | ")[0][1:]): ln.partition(" | ")[2] for ln in ks}
     for l, v in zip(rl, rv):
         post.r_cases += 1
         case, _, obs = l.partition(" | ")
-        if debug_out.get(case, "").startswith("panic") and obs.startswith("err:nopk"):
+        if case in debug_panic and obs.startswith("err:nopk"):
             post.r_wrapped += 1
-        if v != "ok":
-            out.append(("viol" if v.startswith("viol") else "diff", l[:400], v if v.startswith(("viol", "diff")) else "diff " + v))
+        if not v.startswith("ok") or v.startswith("ok not-this-build"):
+            out.append(("viol" if v.startswith("viol") else "diff", l[:400],
+                        v if v.startswith(("viol", "diff")) else "diff " + v))
     if len(lines) >= 50000 and post.r_wrapped < 100:
         out.append(("diff", "R", f"diff coverage floor: only {post.r_wrapped} cases where the checked build panics and the unchecked one wraps"))
     return out
@@ -284,8 +311,8 @@ SPEC = {
     "pid": "C03",
     "coq_targets": ["Props/C03.vo", "Extract/ExC03.vo"],
     "bin": "c03",
-    "sizes": {"quick": 60000, "thorough": 400000},
-    "min_cases": {"quick": 55000, "thorough": 350000},
+    "sizes": {"quick": 60000, "thorough": 250000},
+    "min_cases": {"quick": 55000, "thorough": 220000},
     "search_n": 300000,
     "post": post,
     "extra_coverage": extra_coverage,
@@ -302,8 +329,8 @@ SPEC = {
              "P = PartitionerName::from_str + default on exact, suffixed, "
              "truncated, concatenated and unknown names; 1/6 of the cases use the CDC partitioner; post: per-kind "
              "and per-class floors (signed k2 tails, permuted keys, malformed, too long, CDC, unknown names), the "
-             "Coq SPEC hash3_x64_128 vs an independent unsigned reference on ~300 inputs (kind S), the same "
-             "reference vs every Murmur3 H/W output of the implementation; non-trivial = every case except empty "
+             "Coq SPEC hash3_x64_128 vs an independent unsigned reference on 289 inputs (kind S), the same "
+             "reference vs every Murmur3 H/W output of the implementation (no length limit); non-trivial = every case except empty "
              "inputs; distinct = distinct case lines"),
     "nontrivial": lambda ln: not (ln.startswith("H m - ") or ln.startswith("H c - ") or ln.startswith("W m - ")
                                   or ln.startswith("W c - ") or ln.startswith("T m - ") or ln.startswith("T c - ")),
@@ -327,8 +354,11 @@ SPEC = {
         "errors are compared exactly)",
         "build modes: the main harness is built with overflow-checks (u16 overflow in PartitionKey::new panics; kind K, "
         "model flag checks=true); post re-runs the malformed K cases with the same runner built with overflow checks "
-        "off (wrapping, kind R, checks=false); that second build is the dev profile, not an optimised --release build",
-        "end-to-end E cases need loopback listeners (mocknode); a scenario that cannot start is counted not-run (cap 20)",
+        "off (wrapping, kind R, checks=false; only a duplicate pk index differs between the modes, an index >= column specs "
+        "panics in both); that second build is the dev profile, not an optimised --release build, and is built inside "
+        "post on the first run after a fresh clone",
+        "end-to-end E cases need loopback listeners (mocknode); a scenario whose mock cluster or Session cannot start is `ok not-run`, "
+        "counted in the census (e_not_run) and capped at 20 per run; a failing Session::prepare is a diff",
     ],
 }
 
